@@ -17,10 +17,85 @@ Definition outcome_eqb (a b : bool * option nat * option nat) : bool :=
   let '(e1, x1, y1) := a in let '(e2, x2, y2) := b in
   Bool.eqb e1 e2 && onat_eqb x1 x2 && onat_eqb y1 y2.
 
+(* ---- the mutex model against the real sync.RWMutex ----
+   A script of lock calls issued to threads (a thread that is still inside a call is busy and
+   skips; an unlock of a lock the thread does not hold is refused by the thread itself).  After
+   every call everything that can complete does complete, in Go's order: queued readers are
+   admitted before a queued writer, queued writers first-come first-served. *)
+Inductive mop := MRLock | MRUnlock | MLock | MUnlock.
+Definition mops (o : mop) : list op :=
+  match o with MRLock => [ORLock] | MRUnlock => [ORUnlock] | MLock => [OAnnounce; OEnter] | MUnlock => [OUnlock] end.
+
+Definition busy (c : cfg) (i : nat) : bool :=
+  match nth_error (threads c) i with Some t => negb (thread_done t) | None => true end.
+Definition next_is_rlock (c : cfg) (i : nat) : bool :=
+  match nth_error (threads c) i with
+  | Some t => match todo t with ORLock :: _ => true | _ => false end
+  | None => false
+  end.
+Definition invalid (c : cfg) (i : nat) (o : mop) : bool :=
+  match nth_error (threads c) i with
+  | Some t => match o with
+              | MRUnlock => Nat.eqb (rd t) 0
+              | MUnlock => match wp t with WHeld => false | _ => true end
+              | _ => false
+              end
+  | None => true
+  end.
+
+Fixpoint find_enabled (c : cfg) (pred : nat -> bool) (q : list nat) : option nat :=
+  match q with
+  | [] => None
+  | i :: r => if pred i && enabled c i then Some i else find_enabled c pred r
+  end.
+
+Fixpoint settle (fuel : nat) (c : cfg) (q : list nat) : cfg * list nat :=
+  match fuel with
+  | O => (c, q)
+  | S f =>
+    match (match find_enabled c (next_is_rlock c) q with
+           | Some i => Some i
+           | None => find_enabled c (fun _ => true) q
+           end) with
+    | None => (c, q)
+    | Some i =>
+      match step c i with
+      | Some c' => settle f c' (if busy c' i then q else remove Nat.eq_dec i q)
+      | None => (c, q)
+      end
+    end
+  end.
+
+Definition issue (c : cfg) (i : nat) (o : mop) : cfg :=
+  match nth_error (threads c) i with
+  | Some t => mkC (readers c) (ws c) (ver c) (set_nth i (mkT (mops o) (rd t) (wp t) (tlog t)) (threads c))
+  | None => c
+  end.
+
+Definition blocked_set (c : cfg) : list bool := map (fun t => negb (thread_done t)) (threads c).
+
+(* observation per script step: 0 issued / 1 busy / 2 refused, and who is blocked afterwards *)
+Fixpoint go_run (c : cfg) (q : list nat) (script : list (nat * mop)) : list (nat * list bool) :=
+  match script with
+  | [] => []
+  | (i, o) :: r =>
+    if busy c i then (1, blocked_set c) :: go_run c q r
+    else if invalid c i o then (2, blocked_set c) :: go_run c q r
+    else let '(c', q') := settle 64 (issue c i o) (q ++ [i]) in
+         (0, blocked_set c') :: go_run c' q' r
+  end.
+
+Definition step_obs_eqb (a b : nat * list bool) : bool :=
+  Nat.eqb (fst a) (fst b) && list_eqb Bool.eqb (snd a) (snd b).
+
+Definition chk_rwm (n : nat) (script : list (nat * mop)) (observed : list (nat * list bool)) : bool :=
+  list_eqb step_obs_eqb (go_run (init_cfg 0 (repeat [] n)) [] script) observed.
+
 Inductive case :=
 | CDepth (k : reqkind) (sels : list (bool * nat)) (final : nat)
 | CSched (reqs : list reqkind) (m : nat) (nfail : nat) (completed : bool)
-         (obs : list (bool * option nat * option nat)) (reloads_done : nat) (reload_errs : nat) (final_ver : nat).
+         (obs : list (bool * option nat * option nat)) (reloads_done : nat) (reload_errs : nat) (final_ver : nat)
+| CRwm (n : nat) (script : list (nat * mop)) (observed : list (nat * list bool)).
 
 Fixpoint all2 {A B} (f : A -> B -> bool) (l : list A) (r : list B) : bool :=
   match l, r with
@@ -42,4 +117,6 @@ Definition chk (c : case) : bool :=
     completed && Nat.eqb rdone (m + nfail) && Nat.eqb rerrs nfail &&
     all2 (fun k o => existsb (fun u => outcome_eqb (req_outcome k u) o) (seq 0 (S m))) reqs obs &&
     (if Nat.eqb m 0 then Nat.eqb fv 0 else Nat.leb 1 fv && Nat.leb fv m)
+  | CRwm n script observed => chk_rwm n script observed
   end.
+
